@@ -322,10 +322,19 @@ func run(r *mon.Run) {
 			continue
 		}
 		// (2) semantic fields of the in-memory exchange
+		// every edit is applied to the exchange as built by the signer AND to the one parsed back from the file
+		parsed, perr := signedexchange.ReadExchange(bytes.NewReader(s.file))
+		if perr != nil {
+			r.HarnessFail("honest file unreadable: %v", perr)
+			continue
+		}
 		edit := func(mut string, f func(e *signedexchange.Exchange)) {
 			c := clone(s.e)
 			f(c)
 			judge(r, s, c, mid, fetch, "field", mut, 97)
+			c2 := clone(parsed)
+			f(c2)
+			judge(r, s, c2, mid, fetch, "field-on-parsed", mut, 97)
 		}
 		edit("url=path", func(e *signedexchange.Exchange) { e.RequestURI += "x" })
 		edit("url=query", func(e *signedexchange.Exchange) { e.RequestURI += "?a" })
@@ -337,21 +346,39 @@ func run(r *mon.Run) {
 		edit("status=404", func(e *signedexchange.Exchange) { e.ResponseStatus = 404 })
 		edit("method=HEAD", func(e *signedexchange.Exchange) { e.RequestMethod = "HEAD" })
 		edit("method=POST", func(e *signedexchange.Exchange) { e.RequestMethod = "POST" })
-		for name := range s.e.ResponseHeaders {
-			name := name
-			edit("resp-header-removed="+name, func(e *signedexchange.Exchange) { delete(e.ResponseHeaders, name) })
-			edit("resp-header-value="+name, func(e *signedexchange.Exchange) { e.ResponseHeaders[name] = []string{e.ResponseHeaders[name][0] + "x"} })
-			edit("resp-header-value-append="+name, func(e *signedexchange.Exchange) { e.ResponseHeaders[name] = append(e.ResponseHeaders[name], "extra") })
-			edit("resp-header-renamed="+name, func(e *signedexchange.Exchange) {
+		for name0 := range s.e.ResponseHeaders {
+			name0 := name0
+			// the parsed exchange holds the same header under its canonical key
+			key := func(e *signedexchange.Exchange) string {
+				for k := range e.ResponseHeaders {
+					if strings.EqualFold(k, name0) {
+						return k
+					}
+				}
+				return name0
+			}
+			edit("resp-header-removed="+name0, func(e *signedexchange.Exchange) { delete(e.ResponseHeaders, key(e)) })
+			edit("resp-header-value="+name0, func(e *signedexchange.Exchange) {
+				name := key(e)
+				e.ResponseHeaders[name] = []string{e.ResponseHeaders[name][0] + "x"}
+			})
+			edit("resp-header-value-append="+name0, func(e *signedexchange.Exchange) {
+				name := key(e)
+				e.ResponseHeaders[name] = append(e.ResponseHeaders[name], "extra")
+			})
+			edit("resp-header-renamed="+name0, func(e *signedexchange.Exchange) {
+				name := key(e)
 				e.ResponseHeaders[name+"2"] = e.ResponseHeaders[name]
 				delete(e.ResponseHeaders, name)
 			})
-			edit("resp-header-recased="+name, func(e *signedexchange.Exchange) { // same logical header: harmless
+			edit("resp-header-recased="+name0, func(e *signedexchange.Exchange) { // same logical header: harmless
+				name := key(e)
 				v := e.ResponseHeaders[name]
 				delete(e.ResponseHeaders, name)
 				e.ResponseHeaders[strings.ToUpper(name)] = v
 			})
-			edit("resp-header-split-join="+name, func(e *signedexchange.Exchange) { // "a","b" vs "a,b": same signed form
+			edit("resp-header-split-join="+name0, func(e *signedexchange.Exchange) { // "a","b" vs "a,b": same signed form
+				name := key(e)
 				e.ResponseHeaders[name] = []string{strings.Join(e.ResponseHeaders[name], ",")}
 			})
 		}
